@@ -274,6 +274,59 @@ class FakeSignal(object):
 CONC_WATCH = (os.path.join(os.path.abspath(os.environ.get('VERIF_REPO', '/repo')), 'clastic') + os.sep, '<sinter')
 
 
+class PackageUnreadable(object):
+    """While the failsafe page is up the developer is repairing things: the clastic installation itself is being upgraded
+    or moved -- every file below the package directory is unreadable for a while (stat/open fail, isfile says no).  The
+    application was built before."""
+
+    def __init__(self, active):
+        self.active = active
+        self.hits = 0
+        self.saved = []
+
+    def _is_pkg(self, p):
+        try:
+            p = os.fspath(p)
+            if isinstance(p, bytes):
+                p = os.fsdecode(p)
+            return os.path.abspath(p).startswith(os.path.dirname(os.path.abspath(flaw.__file__)) + os.sep)
+        except Exception:
+            return False
+
+    def __enter__(self):
+        if not self.active:
+            return self
+        import builtins
+        import errno
+        import io as _io
+
+        def failing(real):
+            def f(p, *a, **kw):
+                if not isinstance(p, int) and self._is_pkg(p):
+                    self.hits += 1
+                    raise OSError(errno.EIO, 'Input/output error', str(p))
+                return real(p, *a, **kw)
+            return f
+
+        def isfile(p, real=os.path.isfile):
+            if self._is_pkg(p):
+                self.hits += 1
+                return False
+            return real(p)
+        for mod, name, new in ((builtins, 'open', failing(builtins.open)), (_io, 'open', failing(_io.open)), (os, 'stat', failing(os.stat)),
+                               (os.path, 'getmtime', failing(os.path.getmtime)), (os.path, 'getsize', failing(os.path.getsize)),
+                               (os.path, 'isfile', isfile), (os.path, 'exists', isfile)):
+            self.saved.append((mod, name, getattr(mod, name)))
+            setattr(mod, name, new)
+        return self
+
+    def __exit__(self, *a):
+        for mod, name, old in reversed(self.saved):
+            setattr(mod, name, old)
+        self.saved = []
+        return False
+
+
 class C20(Check):
     id = 'C20'
     world = 'supervisor'
@@ -296,7 +349,7 @@ class C20(Check):
                   'stub': ['subprocess.Popen (scripted stderr + exit code)', 'make_server', 'thread', 'signal', 'reloader_loop', 'tty echo', 'test socket']}
     level_text = 'Seeded search over crash/restart scripts and error texts under the real supervisor loop; sampled.'
     level_note = 'Trusted: html.unescape as the inverse of the template escaping; the model of the 1024-line ring buffer.'
-    required_probes = ('failsafe-under-other-interpreter-flags', 'two-browsers-on-a-fresh-failsafe-application', 'error-text-names-monitored-file', 'ring-buffer-overflow', 'restart-after-change', 'failsafe-shutdown-before-restart', 'type-and-message-named',
+    required_probes = ('failsafe-asked-while-the-installation-is-unreadable', 'failsafe-under-other-interpreter-flags', 'two-browsers-on-a-fresh-failsafe-application', 'error-text-names-monitored-file', 'ring-buffer-overflow', 'restart-after-change', 'failsafe-shutdown-before-restart', 'type-and-message-named',
                        'markup-escaped', 'direct-non-text', 'truncated-traceback', 'syntaxerror-report', 'monitored-files-listed')
 
     # ---- generation --------------------------------------------------------
@@ -322,6 +375,8 @@ class C20(Check):
                                                            'template', 'traceback', 'list']),
                                        'files': rng.choice(['none', 'empty', 'long', 'markup', 'mixed']),
                                        'requests': [[rng.choice(REQ_METHODS), rng.choice(PATHS)]]}})
+                if rng.random() < 0.4:
+                    ops[-1]['direct']['pkg_fault'] = True
                 continue
             last = i == n - 1
             crash = frng.random() < 0.75
@@ -557,9 +612,16 @@ sys.stdout.write(json.dumps(out))
             except Exception as e:
                 res.violate(K + 'create_app-raised:%s@%s' % (type(e).__name__, d['text']), 'create_app(%r, files=%s) raised %r' % (text, d['files'], e))
                 return res
-            for method, path in d.get('requests', [['GET', '/']]):
-                self.judge_page(res, app, method, path, text, given_files,
-                                {'kind': 'traceback', 'exc': 'KeyError', 'msg': 'markup'} if d['text'] == 'traceback' else None, False, 'direct:' + d['text'])
+            reqs = d.get('requests', [['GET', '/']])
+            if d.get('pkg_fault'):
+                reqs = [['GET', '/']] + list(reqs) + [['GET', '/']]
+            for ri, (method, path) in enumerate(reqs):
+                with PackageUnreadable(active=bool(d.get('pkg_fault')) and ri > 0) as pu:
+                    self.judge_page(res, app, method, path, text, given_files,
+                                    {'kind': 'traceback', 'exc': 'KeyError', 'msg': 'markup'} if d['text'] == 'traceback' else None, False, 'direct:' + d['text'])
+                if pu.active:
+                    res.fire('package_files_unreadable', max(1, pu.hits))
+                    res.probe('failsafe-asked-while-the-installation-is-unreadable')
                 if res.violations:
                     return res
         if supervised:
